@@ -52,6 +52,11 @@ def corruptions(v, p, version, name):
         out += [("no-z", "2016-05-12T08:17:27.000"), ("offset-form", "2016-05-12T08:17:27.000+01:00"), ("space-separator", "2016-05-12 08:17:27.000Z"), ("hour-25", "2016-05-12T25:00:00.000Z"),
                 ("month-13", "2016-13-12T08:17:27.000Z"), ("feb-30", "2016-02-30T08:17:27.000Z"), ("two-digit-year", "16-05-12T08:17:27.000Z"), ("empty", ""), ("date-only", "2016-05-12"),
                 ("lowercase", "2016-05-12t08:17:27.000z"), ("year-0000", "0000-05-12T08:17:27.000Z"), ("leap-second", "2016-12-31T23:59:60.000Z"), ("epoch-int", 1463041047)]
+    if k == "timestamp":
+        # VALID spellings too (accepted-and-valid is the expected outcome): what is written for them must still be valid - in particular keep the digits the property requires
+        out += [("valid:milliseconds-end-in-zero", "2016-05-12T08:17:27.100Z"), ("valid:milliseconds-end-in-two-zeros", "2016-05-12T08:17:27.120Z".replace("120", "100")),
+                ("valid:hundredths", "2016-05-12T08:17:27.120Z"), ("valid:leading-zero-fraction", "2016-05-12T08:17:27.010Z"), ("valid:one-digit", "2016-05-12T08:17:27.5Z"),
+                ("valid:six-digits-trailing-zeros", "2016-05-12T08:17:27.120000Z"), ("valid:no-fraction", "2016-05-12T08:17:27Z")]
     if k in ("id", "ref"):
         t = v.split("--")[0] if isinstance(v, str) and "--" in v else "identity"
         out += [("no-separator", t + "-" + V4), ("non-hex", t + "--" + V4[:-1] + "g"), ("uppercase-hex", t + "--" + V4.upper()), ("nil-uuid", t + "--" + NIL), ("uuid-v1", t + "--" + V1),
@@ -250,7 +255,7 @@ def check_result(part, obj, version, case, feat):
         except ValueError as e:
             part.violation("C02/emits-non-json/%s" % feat, "strict construction succeeded but the output is not strict JSON", case, "JSON", text[:150])
             return
-        errs = model.validate(j, "2.1" if j.get("spec_version") == "2.1" or (version == "2.1" and j.get("type") != "bundle") else version)
+        errs = model.validate(j, "2.1" if j.get("spec_version") == "2.1" or (version == "2.1" and j.get("type") != "bundle") else version, written=True)
         if errs:
             path, rule, msg = errs[0]
             part.outcome("accepted-invalid")
